@@ -557,6 +557,12 @@ def fam_linalg(tier, kind=R):
         yield c(n, "la.%s(x) [LAPACK: outside the engine]" % n, lambda np, x, _n=n: getattr(np.linalg, _n)(x), [kind(2, 2)])
 
 
+def _ro_int(t):
+    a = onp.array(t)
+    a.flags.writeable = False
+    return a
+
+
 def fam_fft(tier, kind=R):
     c = lambda prim, lab, f, args, k=0: Config(prim, lab, f, args, k)
     norms = [None, "ortho", "forward", "backward"]
@@ -584,6 +590,9 @@ def fam_fft(tier, kind=R):
                 yield c(n, "fft.%s(x,norm=%r)" % (n, nm), lambda np, x, _n=n, _m=nm: getattr(np.fft, _n)(x, norm=_m), [kind(*s)])
     if kind is R:
         for n in ("rfft", "irfft"):
+            for ax in (0, 1, -1, -2):
+                yield c(n, "fft.%s(x,axis=%d) square input" % (n, ax), lambda np, x, _n=n, _a=ax: getattr(np.fft, _n)(x, axis=_a), [R(4, 4)] if n == "rfft" else [Cx(3, 3)])
+                yield c(n, "fft.%s(x,4,axis=%d) square input" % (n, ax), lambda np, x, _n=n, _a=ax: getattr(np.fft, _n)(x, 4, axis=_a), [R(3, 3)] if n == "rfft" else [Cx(3, 3)])
             for s in [(4,), (2,), (2, 4), (3,), (4, 2)]:
                 arg = [R(*s)] if n == "rfft" else [Cx(*s)]
                 if n == "irfft" and s == (4,):
@@ -606,6 +615,9 @@ def fam_fft(tier, kind=R):
                 yield c(n, "fft.%s(x)" % n, lambda np, x, _n=n: getattr(np.fft, _n)(x), arg)
                 for ss in [(2, 2), (4, 2), (2, 4), (1, 2)]:
                     yield c(n, "fft.%s(x,s=%r)" % (n, ss), lambda np, x, _n=n, _s=ss: getattr(np.fft, _n)(x, s=_s), arg)
+                for ss in [(4, 2), (2, 4)]:
+                    # the shape given as a (read-only) integer ndarray the caller keeps: a rule that edits it in place raises
+                    yield c(n, "fft.%s(x,s=ndarray%r)" % (n, ss), lambda np, x, _n=n, _s=_ro_int(ss): getattr(np.fft, _n)(x, s=_s), arg)
                 for ax in [(0, 1), (1, 0), (-1, -2), (-2, -1), (0, -1), (0, 0), (-1, 1)]:
                     yield c(n, "fft.%s(x,axes=%r)" % (n, ax), lambda np, x, _n=n, _a=ax: getattr(np.fft, _n)(x, axes=_a), arg)
                     yield c(n, "fft.%s(x,s=(2,2),axes=%r)" % (n, ax), lambda np, x, _n=n, _a=ax: getattr(np.fft, _n)(x, s=(2, 2), axes=_a), arg)
@@ -640,7 +652,52 @@ def fam_operators(tier, kind=R):
     yield Config("checkpoint", "checkpoint(f)(scalar const, x)", lambda np, x: ck(np, lambda a, b: a * b * b)(3.0, x), [kind(2)], 0)
 
 
-FAMILIES = {"operators": fam_operators, "unary": fam_unary, "binary": fam_binary, "reduce": fam_reduce, "shape": fam_shape, "contract": fam_contract,
+_EXT = {}
+
+
+def _ext_prims():
+    """user primitives registered through autograd.extend with None (non-differentiable) positions whose shape / kind
+    differs from the output's"""
+    if _EXT:
+        return _EXT
+    from autograd.extend import defjvp, defvjp, primitive
+
+    @primitive
+    def qdot(x, w):
+        return onp.sum(x * x)
+
+    defvjp(qdot, lambda ans, x, w: lambda g: g * 2.0 * x, None)
+    defjvp(qdot, lambda g, ans, x, w: onp.sum(2.0 * x * g) if not hasattr(g, "_value") else (2.0 * x * g).sum(), None)
+
+    @primitive
+    def qscale(x, s_):
+        return x * 3.0
+
+    defvjp(qscale, lambda ans, x, s_: lambda g: g * 3.0, None)
+    defjvp(qscale, lambda g, ans, x, s_: g * 3.0, None)
+
+    @primitive
+    def qphase(x, t):
+        return x * 1j
+
+    defvjp(qphase, lambda ans, x, t: lambda g: g * 1j, None)
+    defjvp(qphase, lambda g, ans, x, t: g * 1j, None)
+    _EXT.update(qdot=qdot, qscale=qscale, qphase=qphase)
+    return _EXT
+
+
+def fam_extension(tier, kind=R):
+    E = _ext_prims()
+    for k in (0, 1):
+        yield Config("ext-none", "user primitive qdot(x[3], w[2]) -> scalar, w registered as None", lambda np, x, w: E["qdot"](x, w), [kind(3), kind(2)], k)
+        yield Config("ext-none", "user primitive qscale(x[3], s) -> vector, scalar s registered as None", lambda np, x, s_: E["qscale"](x, s_), [kind(3), SC], k)
+        yield Config("ext-none", "user primitive qscale(x[2,2], s[2]) None position broadcastable to the output", lambda np, x, s_: E["qscale"](x, s_), [kind(2, 2), kind(2)], k)
+    if kind is R:
+        yield Config("ext-none", "user primitive qphase(x[2], t[3]) complex output, real t registered as None", lambda np, x, t: E["qphase"](x, t), [R(2), R(3)], 1)
+        yield Config("ext-none", "sum(qscale(x, s)) + s**2 : None position also used elsewhere", lambda np, x, s_: np.sum(E["qscale"](x, s_)) + s_ ** 2, [R(3), SC], 1)
+
+
+FAMILIES = {"extension": fam_extension, "operators": fam_operators, "unary": fam_unary, "binary": fam_binary, "reduce": fam_reduce, "shape": fam_shape, "contract": fam_contract,
             "linalg": fam_linalg, "fft": fam_fft}
 
 
@@ -901,6 +958,9 @@ def program_grid(tier):
     p("recursion with closure", rec, [R(2)])
     p("constants mixed in", lambda np, x: 2.0 * x + onp.array([1.0, 2.0]) * x ** 2 - 3.0, [R(2)])
     p("indexing mixture", lambda np, x: x[0] * x + x[::-1] + x[[0, 0, 1]][1:], [R(2)])
+    p("value gathered twice through a list inside a tuple index (diamond)", lambda np, x: np.sum(x[[0, 0, 1], 1:] * x[[1, 0, 0], :2]) + np.sum(x[:, [1, 1, 2]] ** 2), [R(2, 3)])
+    p("aliasing gather (k and k-n) times the value itself", lambda np, x: x[[0, -2, 1]] * x[[1, 1, 0]] + x[[0, 0, 0]], [R(2)])
+    p("take / repeat / tile of one value recombined", lambda np, x: np.sum(np.repeat(x, 2) * np.tile(x, 2)) + np.take(x, [1, 1, 0]) * x[0], [R(2)])
     p("standardise", lambda np, x: (x - np.mean(x)) / np.std(x), [R(3)])
     p("softmax", lambda np, x: np.exp(x) / np.sum(np.exp(x)), [R(3)])
     p("logsumexp", lambda np, x: np.log(np.sum(np.exp(x))), [R(3)])
@@ -974,6 +1034,11 @@ def nested_grid(tier):
     n("make_hvp(f, 1)(a=x, y=x)(v)", lambda np, x: mhvp(f2(np), 1)(x, x)[0](onp.array([1.0, -2.0])), lambda np, x: 6 * x * x * onp.array([1.0, -2.0]), [R(2)])
     n("diag hessian(f, 1)(a=x, y=x)", lambda np, x: np.diag(hes(f2(np), 1)(x, x)), lambda np, x: 6 * x * x, [R(2)])
     n("grad(grad(f,1),1) mixed with grad(f,0)", lambda np, x: egrad(egrad(f2(np), 1), 1)(x, x) + egrad(f2(np), 0)(x, x), lambda np, x: 6 * x * x + x ** 3 + 2 * x * x, [R(2)])
+    # non-differentiable (no-trace) functions of TWO arguments whose operands belong to different nesting levels
+    n("inner y * logical_and(y, outer x)", lambda np, x: x * egrad(lambda y: y * np.logical_and(y, x))(x + 1.0), lambda np, x: x * 1.0, [R(2)])
+    n("inner y * (y > outer x) with floor_divide", lambda np, x: x * egrad(lambda y: y * np.floor_divide(y + 10.0, np.abs(x) + 1.0))(x), lambda np, x: x * np.floor_divide(x + 10.0, np.abs(x) + 1.0), [R(2)])
+    n("inner where(isclose(y, outer x), y, 2y)", lambda np, x: x * egrad(lambda y: np.where(np.isclose(y, x), y, 2.0 * y))(x + 1.0), lambda np, x: x * 2.0, [R(2)])
+    n("inner y * sign(y - outer x) fwd", lambda np, x: x * dfw(lambda y: y * np.logical_or(y, x), x + 1.0), lambda np, x: x * 1.0, [R(2)])
     n("two inner derivatives summed", lambda np, x: egrad(lambda y: x * y)(x) + dfw(lambda y: y * y * x, x), lambda np, x: x + 2 * x * x, [R(2)])
     return _uniq(out)
 
@@ -1076,6 +1141,24 @@ def index_grid(tier):
                 return tot
 
             out.append(Config("getitem", "IDX mix order %s" % "".join(pat), f, [R(3)], 0, tags=("index", "mix")))
+    # the same on a RANK-0 value (a 0-d array, and a 0-d pick x[2] of a vector): indices (), ..., None; running sums of 0-d
+    # cotangents collapse into NumPy scalars
+    idx0 = [(), Ellipsis, None, (None, Ellipsis)]
+    for L in (2, 3, 4):
+        for pat in itertools.product("ID", repeat=L):
+            if "I" not in pat:
+                continue
+
+            def f0(np, x, _pat=pat):
+                tot = None
+                for j, t in enumerate(_pat):
+                    term = np.sum(x[idx0[j % len(idx0)]] * float(j + 2)) if t == "I" else (np.sin(x) if j % 2 else x * x) * float(j + 1)
+                    tot = term if tot is None else tot + term
+                return tot
+
+            out.append(Config("getitem", "IDX rank-0 mix order %s" % "".join(pat), f0, [R()], 0, tags=("index", "mix")))
+            if L <= 3 or tier == "thorough":
+                out.append(Config("getitem", "IDX rank-0 pick x[2] mix order %s" % "".join(pat), lambda np, x, _f=f0: _f(np, x[2]), [R(3)], 0, tags=("index", "mix")))
     # the same with array-valued outputs and nested indexing
     out.append(Config("getitem", "IDX x[1:][::-1][[0,0]] chained", lambda np, x: x[1:][::-1][[0, 0]], [R(3)], 0, tags=("index",)))
     out.append(Config("getitem", "IDX x[idx] * x + x[idx2] array-valued mix", lambda np, x: x[[0, 0, 2]] * x + x[::-1], [R(3)], 0, tags=("index", "mix")))
@@ -1114,6 +1197,15 @@ def container_grid(tier):
     c("tuple consumed WHOLE three times (three dense container cotangents)", lambda np, t, k: sum(np.sum((t + (k,))[0] * (t + (k,))[1]) * float(i + 1) for i in range(3)), [(R(2), R(2)), R(2)])
     c("list consumed WHOLE four times", lambda np, l, k: sum(np.sum(e) * float(j + 1) for i in range(4) for j, e in enumerate(l + [k * float(i)])), [[R(2), R(2)], R(2)])
     c("concatenation of two traced lists", lambda np, l: sum(np.sum(e * float(i + 1)) for i, e in enumerate(l + l)), [[R(2), R(2)]])
+    c("traced tuple + EMPTY tuple", lambda np, t: sum(np.sum(e * float(i + 1)) for i, e in enumerate(t + ())), [(R(2), R(3))])
+    c("EMPTY list + traced list", lambda np, l: sum(np.sum(e * float(i + 1)) for i, e in enumerate([] + l)), [[R(2), R(3)]])
+    c("traced list + EMPTY list, inside a dict", lambda np, d: sum(np.sum(e * float(i + 2)) for i, e in enumerate(d["layers"] + [])) + d["b"], [{"layers": [R(2), R(1)], "b": SC}])
+    # SCALAR leaves (immutable: an in-place `+=` on them only rebinds a name): whole-container (dense) cotangents and indexed
+    # (sparse) ones in several orders
+    c("tuple of scalars: two concatenations then indexed reads", lambda np, t, k: t[0] * np.sin(t[1]) + (t + (k,))[0] * (t + (k,))[1] * 2.0 + ((k,) + t)[1] * ((k,) + t)[2] * 3.0, [(SC, SC), SC])
+    c("tuple of scalars: indexed reads then two concatenations", lambda np, t, k: (t + (k,))[0] * (t + (k,))[1] * 2.0 + ((k,) + t)[1] * ((k,) + t)[2] * 3.0 + t[0] * np.sin(t[1]), [(SC, SC), SC])
+    c("list of scalars placed twice in a container then indexed", lambda np, l: (lambda a, b: a[0][0] * a[1][1] + b[0][1] * 2.0 + l[0] * l[1] * l[0])([l, l], [l, 1.0]), [[SC, SC]])
+    c("dict of scalars: whole-dict uses through values() twice, then key reads", lambda np, d: sum(v * float(i + 1) for i, v in enumerate(d.values())) + sum(v * v for v in d.values()) + d["a"] * np.cos(d["b"]), [{"a": SC, "b": SC}])
     c("len / in / unpacking", lambda np, t: (lambda a, b: np.sum(a * b) * len(t))(*t), [(R(2), R(2))])
     c("wrt second container argument", lambda np, x, t: np.sum(x * t[0]) + t[1] * np.sum(x), [R(2), (R(2), SC)], 1)
     c("wrt array next to a container", lambda np, x, t: np.sum(x * t[0]) + t[1] * np.sum(x), [R(2), (R(2), SC)], 0)
@@ -1176,5 +1268,18 @@ def second_order_grid(tier):
         if c.prim != "program" and n >= lim:
             continue
         seen_prim[c.prim] = n + 1
+        keep.append(c)
+    # complex arguments: rules whose second derivative differs from the real case (phases, conjugates, abs)
+    seen_c = {}
+    for c in complex_grid("quick"):
+        if not small(c):
+            continue
+        lim = 1 if tier == "quick" else 8
+        n = seen_c.get(c.prim, 0)
+        if tier == "quick" and c.prim not in ("linalg.norm", "linalg.norm ord=3", "abs", "angle", "multiply", "dot", "power", "conj"):
+            continue
+        if n >= lim and not c.prim.startswith("linalg.norm"):
+            continue
+        seen_c[c.prim] = n + 1
         keep.append(c)
     return keep
